@@ -1,22 +1,46 @@
-// loggerfacts reads the sources of <repo>/logger (go/parser, go/ast only) and reports the facts the
-// C02/C03 models are parameterised by, as Coq definitions.
+// loggerfacts reads the sources of <repo>/logger and reports the facts the C02/C03 models are
+// parameterised by, as Coq definitions.
 //
 //	loggerfacts <repo> chain|conc
 //
-// chain: per handler type, does clone() clip preformatted, do WithAttrs/WithGroup write only to the
-// fresh clone.  conc: per handler type, is out.Write called exactly once in Handle, after
-// outMu.Lock() with a deferred (or later) Unlock, is the buffer taken from newBuffer() and released by
-// a deferred freeBuffer, does clone() copy the outMu pointer; does freeBuffer reset the length before
-// Put and refuse oversized buffers; is the level gate the first statement of log/logf/logAttrs.
+// It is a SYNTACTIC PATTERN RECOGNISER (go/parser, go/ast, go/build for build constraints), not a
+// program analysis: it knows one shape per function and refuses everything else. The rules:
 //
-// A fact is "false" when the code shape is recognised and the discipline is not followed. When the
-// shape is not recognised at all the program prints UNRECOGNISED lines and exits with status 3: the
-// caller reports a broken correspondence, never a pass.
+//	files     the non-test files of package logger selected by go/build with the tag "verif"; a function or
+//	          method defined twice is refused
+//	types     JsonHandler/TextHandler/NanoHandler: outMu must be *sync.Mutex (a mutex VALUE makes clone_shares_mu
+//	          false), preformatted []byte; other slice fields are treated like preformatted (clone must clip them);
+//	          map/chan/other pointer fields are refused; a handler type that declares Enabled/IsDebug/IsColorful/
+//	          IsAddSource itself (shadowing *Options) is refused
+//	clone     `return &T{k: v, …}` or `c := *h; c.f = …; return &c`; preformatted (and every slice field) must be
+//	          slices.Clip(h.f) or h.f[:len(h.f):len(h.f)] (otherwise clone_clips = false); outMu must be h.outMu
+//	With*     every assignment, ++/--, address-of (except as argument of sync/atomic functions) is classified by the
+//	          variable at its root: only direct fields of a variable bound by `x := h.clone()` may be written; a right-hand
+//	          side or argument `append(X, …)`, `X[a:b]`, `&X` rooted at the receiver counts as a write of the receiver;
+//	          methods called on the receiver/clone must be clone, Options accessors, or methods of the same type that write
+//	          nothing through their receiver; anything unclassifiable is refused
+//	Logger    With/WithGroup must return `l` or `&Logger{…}` and never assign through `l`
+//	Handle    `buf := newBuffer()`, `defer freeBuffer(buf)`, `h.outMu.Lock()`, `defer h.outMu.Unlock()` (or Unlock after the
+//	          Write) and exactly one `h.out.Write(*buf)` must be TOP-LEVEL statements of Handle in this order; any of them
+//	          inside if/for/switch/go/defer/func literal makes the fact false; no other use of h.out; Handle and the
+//	          package-level functions / methods reachable from it assign to no handler field and to no package-level
+//	          variable (sync/atomic calls and method calls, e.g. on a sync.Pool, are not assignments); no method of the
+//	          handler type assigns outMu or out
+//	buffer    freeBuffer: `*buf = (*buf)[:0]` before the single bufferPool.Put(buf), guarded by cap(*buf) <= maxBufferSize
+//	gate      log/logf/logAttrs start with `if !l.h.Enabled(level) { return … }`; NewOptions stores its level argument
+//	          unchanged; Options.Enabled is `l >= opts.level`
+//
+// Known limits (covered by the harness, not by these facts): aliasing through values reachable from Options or through
+// package-level state touched by methods not reachable from Handle/With*; data flow through local variables; reflection.
+//
+// A fact is "false" when the shape is recognised and the discipline is not followed. When the shape is not recognised the
+// program prints UNRECOGNISED lines and exits with status 3: the caller reports a broken correspondence, never a pass.
 package main
 
 import (
 	"fmt"
 	"go/ast"
+	"go/build"
 	"go/parser"
 	"go/token"
 	"os"
@@ -67,7 +91,18 @@ func show(e ast.Expr) string {
 	case *ast.TypeAssertExpr:
 		return show(x.X) + ".(" + show(x.Type) + ")"
 	case *ast.ArrayType:
+		if x.Len != nil {
+			return "[" + show(x.Len) + "]" + show(x.Elt)
+		}
 		return "[]" + show(x.Elt)
+	case *ast.MapType:
+		return "map[" + show(x.Key) + "]" + show(x.Value)
+	case *ast.ChanType:
+		return "chan " + show(x.Value)
+	case *ast.InterfaceType:
+		return "interface{…}"
+	case *ast.FuncType:
+		return "func(…)"
 	}
 	return "?"
 }
@@ -77,35 +112,55 @@ type method struct {
 	decl *ast.FuncDecl
 }
 
+type field struct{ name, typ string }
+
 type pkg struct {
 	methods map[string]map[string]*method // type -> name -> method
 	funcs   map[string]*ast.FuncDecl
 	consts  map[string]string
 	vars    map[string]ast.Expr
+	globals map[string]bool // every package-level variable
+	structs map[string][]field
 }
 
 func load(dir string) *pkg {
 	fset := token.NewFileSet()
 	ents, err := os.ReadDir(dir)
 	if err != nil {
-		fmt.Fprintln(os.Stderr, "UNRECOGNISED: cannot read", dir, err)
-		os.Exit(3)
+		unrecognised("cannot read %s: %v", dir, err)
+		return nil
 	}
-	p := &pkg{methods: map[string]map[string]*method{}, funcs: map[string]*ast.FuncDecl{}, consts: map[string]string{}, vars: map[string]ast.Expr{}}
+	ctx := build.Default
+	ctx.BuildTags = append(append([]string(nil), ctx.BuildTags...), "verif")
+	p := &pkg{methods: map[string]map[string]*method{}, funcs: map[string]*ast.FuncDecl{}, consts: map[string]string{},
+		vars: map[string]ast.Expr{}, globals: map[string]bool{}, structs: map[string][]field{}}
 	for _, e := range ents {
 		n := e.Name()
 		if !strings.HasSuffix(n, ".go") || strings.HasSuffix(n, "_test.go") {
 			continue
 		}
+		if ok, err := ctx.MatchFile(dir, n); err != nil || !ok {
+			continue // excluded by a build constraint: not part of the package
+		}
 		f, err := parser.ParseFile(fset, filepath.Join(dir, n), nil, parser.SkipObjectResolution)
 		if err != nil {
-			fmt.Fprintln(os.Stderr, "UNRECOGNISED: parse error", err)
-			os.Exit(3)
+			unrecognised("parse error: %v", err)
+			return nil
+		}
+		if f.Name.Name != "logger" {
+			continue
 		}
 		for _, d := range f.Decls {
 			switch x := d.(type) {
 			case *ast.FuncDecl:
+				if x.Body == nil {
+					unrecognised("%s has no body", x.Name.Name)
+					continue
+				}
 				if x.Recv == nil || len(x.Recv.List) == 0 {
+					if p.funcs[x.Name.Name] != nil && x.Name.Name != "init" {
+						unrecognised("function %s is defined twice", x.Name.Name)
+					}
 					p.funcs[x.Name.Name] = x
 					continue
 				}
@@ -124,18 +179,39 @@ func load(dir string) *pkg {
 				if p.methods[id.Name] == nil {
 					p.methods[id.Name] = map[string]*method{}
 				}
+				if p.methods[id.Name][x.Name.Name] != nil {
+					unrecognised("method %s.%s is defined twice", id.Name, x.Name.Name)
+				}
 				p.methods[id.Name][x.Name.Name] = &method{rn, x}
 			case *ast.GenDecl:
 				for _, s := range x.Specs {
-					if vs, ok := s.(*ast.ValueSpec); ok {
-						for i, nm := range vs.Names {
-							if i < len(vs.Values) {
+					switch sp := s.(type) {
+					case *ast.ValueSpec:
+						for i, nm := range sp.Names {
+							if x.Tok == token.VAR {
+								p.globals[nm.Name] = true
+							}
+							if i < len(sp.Values) {
 								if x.Tok == token.CONST {
-									p.consts[nm.Name] = show(vs.Values[i])
+									p.consts[nm.Name] = show(sp.Values[i])
 								} else {
-									p.vars[nm.Name] = vs.Values[i]
+									p.vars[nm.Name] = sp.Values[i]
 								}
 							}
+						}
+					case *ast.TypeSpec:
+						if st, ok := sp.Type.(*ast.StructType); ok {
+							var fs []field
+							for _, f := range st.Fields.List {
+								ts := show(f.Type)
+								if len(f.Names) == 0 { // embedded
+									fs = append(fs, field{strings.TrimPrefix(ts, "*"), ts})
+								}
+								for _, nm := range f.Names {
+									fs = append(fs, field{nm.Name, ts})
+								}
+							}
+							p.structs[sp.Name.Name] = fs
 						}
 					}
 				}
@@ -170,40 +246,39 @@ func rootOf(e ast.Expr) (string, int, bool) {
 }
 
 type writes struct {
-	recvWrites  []string // writes (assignment, ++, address taken) rooted at the receiver
+	recvWrites  []string // writes (assignment, ++, address taken, append/reslice of) rooted at the receiver
 	freshWrites []string // writes to direct fields of a fresh clone
-	other       []string // writes we cannot classify (globals, through pointers of the clone, ...)
+	globalW     []string // writes rooted at a package-level variable
+	other       []string // writes we cannot classify
 	fresh       map[string]bool
 	recvCalls   []string // methods called on the receiver or on a clone
+	funcCalls   []string // package-level functions called
 }
 
-// scanWrites classifies every write in the body of m.
-func scanWrites(m *method) *writes {
+// scanWrites classifies every write in the body of fn. recv may be "" (plain function).
+func scanWrites(p *pkg, recv string, fn *ast.FuncDecl) *writes {
 	w := &writes{fresh: map[string]bool{}}
 	locals := map[string]bool{}
-	if m.decl.Type.Params != nil {
-		for _, f := range m.decl.Type.Params.List {
-			for _, n := range f.Names {
-				locals[n.Name] = true
+	addFields := func(fl *ast.FieldList) {
+		if fl != nil {
+			for _, f := range fl.List {
+				for _, n := range f.Names {
+					locals[n.Name] = true
+				}
 			}
 		}
 	}
-	if m.decl.Type.Results != nil {
-		for _, f := range m.decl.Type.Results.List {
-			for _, n := range f.Names {
-				locals[n.Name] = true
-			}
-		}
-	}
-	// first pass: local definitions and fresh clones
-	ast.Inspect(m.decl.Body, func(n ast.Node) bool {
+	addFields(fn.Type.Params)
+	addFields(fn.Type.Results)
+	atomicArg := map[ast.Expr]bool{}
+	ast.Inspect(fn.Body, func(n ast.Node) bool {
 		switch x := n.(type) {
 		case *ast.AssignStmt:
 			if x.Tok == token.DEFINE {
 				for i, l := range x.Lhs {
 					if id, ok := l.(*ast.Ident); ok {
 						locals[id.Name] = true
-						if len(x.Lhs) == len(x.Rhs) && show(x.Rhs[i]) == m.recv+".clone()" {
+						if recv != "" && len(x.Lhs) == len(x.Rhs) && show(x.Rhs[i]) == recv+".clone()" {
 							w.fresh[id.Name] = true
 						}
 					}
@@ -228,10 +303,22 @@ func scanWrites(m *method) *writes {
 				}
 			}
 		case *ast.FuncLit:
-			if x.Type.Params != nil {
-				for _, f := range x.Type.Params.List {
-					for _, nm := range f.Names {
-						locals[nm.Name] = true
+			addFields(x.Type.Params)
+			addFields(x.Type.Results)
+		case *ast.TypeSwitchStmt:
+			if a, ok := x.Assign.(*ast.AssignStmt); ok {
+				for _, l := range a.Lhs {
+					if id, ok := l.(*ast.Ident); ok {
+						locals[id.Name] = true
+					}
+				}
+			}
+		case *ast.CallExpr:
+			// sync/atomic functions take the address of what they update atomically: not a plain write
+			if s, ok := x.Fun.(*ast.SelectorExpr); ok {
+				if id, ok := s.X.(*ast.Ident); ok && id.Name == "atomic" {
+					for _, a := range x.Args {
+						atomicArg[a] = true
 					}
 				}
 			}
@@ -245,21 +332,49 @@ func scanWrites(m *method) *writes {
 		case !ok:
 			w.other = append(w.other, desc)
 		case name == "_":
-		case name == m.recv:
+		case recv != "" && name == recv:
 			w.recvWrites = append(w.recvWrites, desc)
 		case w.fresh[name] && depth == 1:
 			w.freshWrites = append(w.freshWrites, desc)
 		case w.fresh[name] && depth == 0:
-			// re-assigning the clone variable itself
-			w.other = append(w.other, desc)
+			w.other = append(w.other, desc+" (the clone variable itself)")
 		case w.fresh[name]:
 			w.other = append(w.other, desc+" (through a pointer field of the clone)")
 		case locals[name]:
+		case p.globals[name]:
+			w.globalW = append(w.globalW, desc)
 		default:
 			w.other = append(w.other, desc+" (not a local)")
 		}
 	}
-	ast.Inspect(m.decl.Body, func(n ast.Node) bool {
+	// an expression that can write into, or hands out, memory of the receiver
+	aliasing := func(e ast.Expr, where string) {
+		if recv == "" {
+			return
+		}
+		ast.Inspect(e, func(n ast.Node) bool {
+			switch x := n.(type) {
+			case *ast.FuncLit:
+				return false
+			case *ast.CallExpr:
+				if id, ok := x.Fun.(*ast.Ident); ok && id.Name == "append" && len(x.Args) > 0 {
+					if name, _, ok := rootOf(x.Args[0]); ok && name == recv {
+						w.recvWrites = append(w.recvWrites, where+" appends to the receiver's "+show(x.Args[0]))
+					}
+				}
+			case *ast.SliceExpr:
+				if name, d, ok := rootOf(x.X); ok && name == recv && d > 0 {
+					s := show(x)
+					src := show(x.X)
+					if !(x.Slice3 && s == src+"[:len("+src+"):len("+src+")]") {
+						w.recvWrites = append(w.recvWrites, where+" reslices the receiver's "+src)
+					}
+				}
+			}
+			return true
+		})
+	}
+	ast.Inspect(fn.Body, func(n ast.Node) bool {
 		switch x := n.(type) {
 		case *ast.AssignStmt:
 			for _, l := range x.Lhs {
@@ -269,6 +384,9 @@ func scanWrites(m *method) *writes {
 					}
 				}
 				target(l, "assign")
+			}
+			for _, r := range x.Rhs {
+				aliasing(r, "right-hand side")
 			}
 		case *ast.IncDecStmt:
 			target(x.X, "incdec")
@@ -281,15 +399,29 @@ func scanWrites(m *method) *writes {
 				}
 			}
 		case *ast.UnaryExpr:
-			if x.Op == token.AND {
+			if x.Op == token.AND && !atomicArg[x] {
 				if _, ok := x.X.(*ast.CompositeLit); !ok {
 					target(x.X, "address-of")
 				}
 			}
+		case *ast.ReturnStmt:
+			for _, r := range x.Results {
+				aliasing(r, "return value")
+			}
 		case *ast.CallExpr:
-			if s, ok := x.Fun.(*ast.SelectorExpr); ok {
-				if id, ok := s.X.(*ast.Ident); ok && (id.Name == m.recv || w.fresh[id.Name]) {
-					w.recvCalls = append(w.recvCalls, s.Sel.Name)
+			for _, a := range x.Args {
+				if c, ok := a.(*ast.CallExpr); ok {
+					aliasing(c, "argument")
+				}
+			}
+			switch f := x.Fun.(type) {
+			case *ast.SelectorExpr:
+				if id, ok := f.X.(*ast.Ident); ok && recv != "" && (id.Name == recv || w.fresh[id.Name]) {
+					w.recvCalls = append(w.recvCalls, f.Sel.Name)
+				}
+			case *ast.Ident:
+				if p.funcs[f.Name] != nil && !locals[f.Name] {
+					w.funcCalls = append(w.funcCalls, f.Name)
 				}
 			}
 		}
@@ -314,7 +446,7 @@ func helperCallsClean(p *pkg, typ string, w *writes, where string) bool {
 			ok = false
 			continue
 		}
-		hw := scanWrites(hm)
+		hw := scanWrites(p, hm.recv, hm.decl)
 		if len(hw.recvWrites) > 0 || len(hw.other) > 0 {
 			ok = false
 		}
@@ -328,80 +460,156 @@ type chainFacts struct {
 }
 
 type concFacts struct {
-	SingleWrite, WriteUnderLock, CloneSharesMu, BufFromPool, FreeDeferred, HandleReadonly bool
-	Notes                                                                                 []string
+	SingleWrite, WriteUnderLock, CloneSharesMu, BufFromPool, FreeDeferred, HandleReadonly, MuOutImmutable bool
+	Notes                                                                                                 []string
 }
 
-func cloneLiteral(p *pkg, typ string) (*method, map[string]ast.Expr) {
+var handlerTypes = []struct{ typ, name string }{{"JsonHandler", "json"}, {"TextHandler", "text"}, {"NanoHandler", "nano"}}
+
+func fieldType(p *pkg, typ, name string) string {
+	for _, f := range p.structs[typ] {
+		if f.name == name {
+			return f.typ
+		}
+	}
+	return ""
+}
+
+// checkType: the shape of the handler struct
+func checkType(p *pkg, typ string) {
+	if p.structs[typ] == nil {
+		unrecognised("type %s struct not found", typ)
+		return
+	}
+	for m := range readOnlyOptionMethods {
+		if p.methods[typ][m] != nil {
+			unrecognised("%s declares its own %s (shadows *Options.%s): which gate the Logger consults is no longer the one the facts describe", typ, m, m)
+		}
+	}
+	for _, f := range p.structs[typ] {
+		switch {
+		case f.name == "Options" && f.typ == "*Options":
+		case f.name == "outMu": // judged in cloneFields (pointer or value)
+		case f.name == "out" && f.typ == "io.Writer":
+		case strings.HasPrefix(f.typ, "[]"): // judged in cloneFields (must be clipped)
+		case f.typ == "string" || f.typ == "int" || f.typ == "bool" || f.typ == "uint64" || f.typ == "int64" || f.typ == "uint32" || f.typ == "int32":
+		case strings.HasPrefix(f.typ, "atomic."):
+		default:
+			unrecognised("%s.%s has type %s: the facts do not know how clone() must treat it", typ, f.name, f.typ)
+		}
+	}
+	if t := fieldType(p, typ, "preformatted"); t != "[]byte" {
+		unrecognised("%s.preformatted has type %q, want []byte", typ, t)
+	}
+}
+
+// cloneFields: for each field of the handler struct the expression the child gets, for both clone() shapes.
+func cloneFields(p *pkg, typ string) (*method, map[string]ast.Expr) {
 	m := p.methods[typ]["clone"]
 	if m == nil {
 		unrecognised("%s.clone not found", typ)
 		return nil, nil
 	}
-	var lit *ast.CompositeLit
-	if len(m.decl.Body.List) == 1 {
-		if r, ok := m.decl.Body.List[0].(*ast.ReturnStmt); ok && len(r.Results) == 1 {
+	body := m.decl.Body.List
+	fields := map[string]ast.Expr{}
+	// shape 1: return &T{k: v, …}
+	if len(body) == 1 {
+		if r, ok := body[0].(*ast.ReturnStmt); ok && len(r.Results) == 1 {
 			e := r.Results[0]
 			if u, ok := e.(*ast.UnaryExpr); ok && u.Op == token.AND {
 				e = u.X
 			}
-			lit, _ = e.(*ast.CompositeLit)
+			if lit, ok := e.(*ast.CompositeLit); ok && show(lit.Type) == typ {
+				for _, el := range lit.Elts {
+					kv, ok := el.(*ast.KeyValueExpr)
+					if !ok {
+						unrecognised("%s.clone uses a positional composite literal", typ)
+						return m, nil
+					}
+					fields[show(kv.Key)] = kv.Value
+				}
+				return m, fields
+			}
 		}
 	}
-	if lit == nil || show(lit.Type) != typ {
-		unrecognised("%s.clone is not a single `return &%s{…}`", typ, typ)
-		return m, nil
-	}
-	fields := map[string]ast.Expr{}
-	for _, el := range lit.Elts {
-		kv, ok := el.(*ast.KeyValueExpr)
-		if !ok {
-			unrecognised("%s.clone uses a positional composite literal", typ)
-			return m, nil
+	// shape 2: c := *h; c.f = e; …; return &c
+	if len(body) >= 2 {
+		if a, ok := body[0].(*ast.AssignStmt); ok && a.Tok == token.DEFINE && len(a.Lhs) == 1 && len(a.Rhs) == 1 && show(a.Rhs[0]) == "*"+m.recv {
+			c := show(a.Lhs[0])
+			if r, ok := body[len(body)-1].(*ast.ReturnStmt); ok && len(r.Results) == 1 && show(r.Results[0]) == "&"+c {
+				for _, f := range p.structs[typ] {
+					fields[f.name] = &ast.SelectorExpr{X: ast.NewIdent(m.recv), Sel: ast.NewIdent(f.name)}
+				}
+				for _, st := range body[1 : len(body)-1] {
+					as, ok := st.(*ast.AssignStmt)
+					if !ok || as.Tok != token.ASSIGN || len(as.Lhs) != 1 || len(as.Rhs) != 1 {
+						unrecognised("%s.clone (struct copy): unexpected statement", typ)
+						return m, nil
+					}
+					sel, ok := as.Lhs[0].(*ast.SelectorExpr)
+					if !ok || show(sel.X) != c {
+						unrecognised("%s.clone (struct copy): assignment to %s", typ, show(as.Lhs[0]))
+						return m, nil
+					}
+					fields[sel.Sel.Name] = as.Rhs[0]
+				}
+				return m, fields
+			}
 		}
-		fields[show(kv.Key)] = kv.Value
 	}
-	return m, fields
+	unrecognised("%s.clone is neither `return &%s{…}` nor `c := *%s; c.f = …; return &c`", typ, typ, m.recv)
+	return m, nil
+}
+
+func clipped(e ast.Expr, src string) bool {
+	s := show(e)
+	return s == "slices.Clip("+src+")" || s == src+"[:len("+src+"):len("+src+")]"
 }
 
 func chainOf(p *pkg, typ string) chainFacts {
 	var f chainFacts
-	m, fields := cloneLiteral(p, typ)
+	checkType(p, typ)
+	m, fields := cloneFields(p, typ)
 	if fields != nil {
-		pf, ok := fields["preformatted"]
-		if !ok {
-			unrecognised("%s.clone does not set preformatted", typ)
-		} else {
-			src := m.recv + ".preformatted"
-			s := show(pf)
-			switch s {
-			case "slices.Clip(" + src + ")", src + "[:len(" + src + "):len(" + src + ")]":
-				f.CloneClips = true
-			case src:
+		f.CloneClips = true
+		for _, fd := range p.structs[typ] {
+			if !strings.HasPrefix(fd.typ, "[]") {
+				continue
+			}
+			src := m.recv + "." + fd.name
+			v, ok := fields[fd.name]
+			switch {
+			case !ok:
+				unrecognised("%s.clone does not set %s", typ, fd.name)
+			case clipped(v, src):
+			case show(v) == src:
 				f.CloneClips = false
-				f.Notes = append(f.Notes, "clone hands the parent's slice on unclipped: "+s)
+				f.Notes = append(f.Notes, "clone hands the parent's slice "+fd.name+" on unclipped")
 			default:
-				unrecognised("%s.clone: preformatted: %s is neither clipped nor the plain parent slice", typ, s)
+				if name, _, ok := rootOf(v); ok && name == m.recv {
+					f.CloneClips = false
+					f.Notes = append(f.Notes, "clone: "+fd.name+": "+show(v)+" aliases the parent")
+				} else {
+					unrecognised("%s.clone: %s: %s is neither clipped nor the plain parent slice", typ, fd.name, show(v))
+				}
 			}
 		}
 	}
-	// WithAttrs
 	if wa := p.methods[typ]["WithAttrs"]; wa == nil {
 		unrecognised("%s.WithAttrs not found", typ)
 	} else {
-		w := scanWrites(wa)
+		w := scanWrites(p, wa.recv, wa.decl)
 		for _, o := range w.other {
 			unrecognised("%s.WithAttrs: cannot classify write: %s", typ, o)
 		}
 		if len(w.fresh) == 0 {
 			unrecognised("%s.WithAttrs: no `x := %s.clone()`", typ, wa.recv)
 		}
-		f.WithAttrsFresh = len(w.recvWrites) == 0 && helperCallsClean(p, typ, w, "WithAttrs")
-		for _, r := range w.recvWrites {
-			f.Notes = append(f.Notes, "WithAttrs writes the receiver: "+r)
+		f.WithAttrsFresh = len(w.recvWrites) == 0 && len(w.globalW) == 0 && helperCallsClean(p, typ, w, "WithAttrs")
+		for _, r := range append(w.recvWrites, w.globalW...) {
+			f.Notes = append(f.Notes, "WithAttrs writes the receiver / shared state: "+r)
 		}
 	}
-	// WithGroup
 	if wg := p.methods[typ]["WithGroup"]; wg == nil {
 		unrecognised("%s.WithGroup not found", typ)
 	} else {
@@ -412,36 +620,118 @@ func chainOf(p *pkg, typ string) chainFacts {
 			}
 		}
 		if !f.GroupReturnsReceiver {
-			w := scanWrites(wg)
+			w := scanWrites(p, wg.recv, wg.decl)
 			for _, o := range w.other {
 				unrecognised("%s.WithGroup: cannot classify write: %s", typ, o)
 			}
 			if len(w.fresh) == 0 && len(w.recvWrites) == 0 {
 				unrecognised("%s.WithGroup: no `x := %s.clone()` and not `return %s`", typ, wg.recv, wg.recv)
 			}
-			f.WithGroupFresh = len(w.recvWrites) == 0 && helperCallsClean(p, typ, w, "WithGroup")
-			for _, r := range w.recvWrites {
-				f.Notes = append(f.Notes, "WithGroup writes the receiver: "+r)
+			f.WithGroupFresh = len(w.recvWrites) == 0 && len(w.globalW) == 0 && helperCallsClean(p, typ, w, "WithGroup")
+			for _, r := range append(w.recvWrites, w.globalW...) {
+				f.Notes = append(f.Notes, "WithGroup writes the receiver / shared state: "+r)
 			}
 		}
 	}
 	return f
 }
 
-// position-ordered list of interesting events in Handle
-type event struct {
-	pos  token.Pos
-	kind string
+// loggerWraps: Logger.With / WithGroup return the receiver or a new &Logger{…} and never assign through the receiver.
+func loggerWraps(p *pkg) (bool, []string) {
+	ok := true
+	var notes []string
+	for _, name := range []string{"With", "WithGroup"} {
+		m := p.methods["Logger"][name]
+		if m == nil {
+			unrecognised("Logger.%s not found", name)
+			ok = false
+			continue
+		}
+		w := scanWrites(p, m.recv, m.decl)
+		for _, o := range w.other {
+			unrecognised("Logger.%s: cannot classify write: %s", name, o)
+		}
+		if len(w.recvWrites) > 0 || len(w.globalW) > 0 {
+			ok = false
+			notes = append(notes, "Logger."+name+" writes its receiver: "+strings.Join(append(w.recvWrites, w.globalW...), "; "))
+		}
+		derives := false
+		ast.Inspect(m.decl.Body, func(n ast.Node) bool {
+			if r, isRet := n.(*ast.ReturnStmt); isRet && len(r.Results) == 1 {
+				s := show(r.Results[0])
+				switch {
+				case s == m.recv:
+				case s == "&Logger{…}":
+					derives = true
+				default:
+					unrecognised("Logger.%s returns %s (neither the receiver nor &Logger{…})", name, s)
+				}
+			}
+			return true
+		})
+		if !derives {
+			unrecognised("Logger.%s never returns a new &Logger{…}", name)
+		}
+	}
+	return ok, notes
+}
+
+// topLevel reports the index of the top-level statement of body that is exactly the call `want` (as an expression
+// statement, a defer, or the single right-hand side / result of an assignment / return), -1 when there is none.
+func topLevel(body []ast.Stmt, isDefer bool, match func(*ast.CallExpr) bool) []int {
+	var idx []int
+	for i, st := range body {
+		var call *ast.CallExpr
+		switch x := st.(type) {
+		case *ast.ExprStmt:
+			if !isDefer {
+				call, _ = x.X.(*ast.CallExpr)
+			}
+		case *ast.DeferStmt:
+			if isDefer {
+				call = x.Call
+			}
+		case *ast.AssignStmt:
+			if !isDefer && len(x.Rhs) == 1 {
+				call, _ = x.Rhs[0].(*ast.CallExpr)
+			}
+		case *ast.ReturnStmt:
+			if !isDefer && len(x.Results) == 1 {
+				call, _ = x.Results[0].(*ast.CallExpr)
+			}
+		}
+		if call != nil && match(call) {
+			idx = append(idx, i)
+		}
+	}
+	return idx
+}
+
+func countCalls(body *ast.BlockStmt, match func(*ast.CallExpr) bool) int {
+	n := 0
+	ast.Inspect(body, func(nd ast.Node) bool {
+		if c, ok := nd.(*ast.CallExpr); ok && match(c) {
+			n++
+		}
+		return true
+	})
+	return n
 }
 
 func concOf(p *pkg, typ string) concFacts {
 	var f concFacts
-	m, fields := cloneLiteral(p, typ)
+	checkType(p, typ)
+	m, fields := cloneFields(p, typ)
 	if fields != nil {
 		mu, ok := fields["outMu"]
+		mt := fieldType(p, typ, "outMu")
 		switch {
 		case !ok:
 			unrecognised("%s.clone does not set outMu", typ)
+		case mt == "sync.Mutex":
+			f.Notes = append(f.Notes, "outMu is a mutex VALUE: every clone gets its own copy of the lock")
+		case mt != "*sync.Mutex":
+			unrecognised("%s.outMu has type %s, want *sync.Mutex", typ, mt)
 		case show(mu) == m.recv+".outMu":
 			f.CloneSharesMu = true
 		default:
@@ -451,114 +741,169 @@ func concOf(p *pkg, typ string) concFacts {
 			unrecognised("%s.clone does not copy out", typ)
 		}
 	}
+	// no method ever assigns outMu / out
+	f.MuOutImmutable = true
+	var names []string
+	for n := range p.methods[typ] {
+		names = append(names, n)
+	}
+	sort.Strings(names)
+	for _, n := range names {
+		mm := p.methods[typ][n]
+		w := scanWrites(p, mm.recv, mm.decl)
+		for _, wr := range w.recvWrites {
+			if strings.HasSuffix(wr, "."+"outMu") || strings.HasSuffix(wr, ".out") || strings.Contains(wr, ".outMu ") || strings.Contains(wr, ".out ") {
+				f.MuOutImmutable = false
+				f.Notes = append(f.Notes, n+" assigns the output mutex / destination: "+wr)
+			}
+		}
+	}
 	h := p.methods[typ]["Handle"]
 	if h == nil {
 		unrecognised("%s.Handle not found", typ)
 		return f
 	}
 	r := h.recv
-	var evs []event
+	body := h.decl.Body.List
+	is := func(s string) func(*ast.CallExpr) bool { return func(c *ast.CallExpr) bool { return show(c) == s } }
+	isWrite := func(c *ast.CallExpr) bool { return show(c.Fun) == r+".out.Write" }
+	isNew := is("newBuffer()")
+	isFree := func(c *ast.CallExpr) bool {
+		s := show(c)
+		return strings.HasPrefix(s, "freeBuffer(") || strings.HasPrefix(s, "bufferPool.Put(")
+	}
+	lock, dunlock, unlock := topLevel(body, false, is(r+".outMu.Lock()")), topLevel(body, true, is(r+".outMu.Unlock()")), topLevel(body, false, is(r+".outMu.Unlock()"))
+	wr, nb, dfree := topLevel(body, false, isWrite), topLevel(body, false, isNew), topLevel(body, true, isFree)
+	nLock, nUnlock, nWrite := countCalls(h.decl.Body, is(r+".outMu.Lock()")), countCalls(h.decl.Body, is(r+".outMu.Unlock()")), countCalls(h.decl.Body, isWrite)
+	nNew, nFree := countCalls(h.decl.Body, isNew), countCalls(h.decl.Body, isFree)
+	f.Notes = append(f.Notes, fmt.Sprintf("Handle top-level statement indices: newBuffer%v deferFree%v lock%v deferUnlock%v write%v unlock%v", nb, dfree, lock, dunlock, wr, unlock))
+	nested := func(what string, top, all int) bool {
+		if all > top {
+			f.Notes = append(f.Notes, fmt.Sprintf("Handle: %d of %d %s calls are not top-level statements (inside if/for/switch/go/defer/func literal)", all-top, all, what))
+			return true
+		}
+		return false
+	}
+	if nWrite == 0 {
+		unrecognised("%s.Handle: no call of %s.out.Write", typ, r)
+	}
+	// buffer
 	bufVar := ""
-	otherOutUse := 0
+	if len(nb) == 1 {
+		if a, ok := body[nb[0]].(*ast.AssignStmt); ok && len(a.Lhs) == 1 {
+			bufVar = show(a.Lhs[0])
+		}
+	}
+	f.BufFromPool = len(nb) == 1 && nNew == 1 && bufVar != "" && (len(wr) == 0 || nb[0] < wr[0])
+	if !f.BufFromPool {
+		unrecognised("%s.Handle: buffer is not a top-level `buf := newBuffer()` before the Write", typ)
+	}
+	f.FreeDeferred = len(dfree) == 1 && nFree == 1 && bufVar != "" && show(body[dfree[0]].(*ast.DeferStmt).Call) == "freeBuffer("+bufVar+")" && dfree[0] > nb[0]
+	if !f.FreeDeferred {
+		if nFree == 0 {
+			unrecognised("%s.Handle: buffer is never released", typ)
+		}
+		f.Notes = append(f.Notes, "Handle: the buffer is not released by a single top-level `defer freeBuffer(buf)`")
+	}
+	// the single Write
+	otherOut := 0
 	ast.Inspect(h.decl.Body, func(n ast.Node) bool {
-		switch x := n.(type) {
-		case *ast.AssignStmt:
-			if len(x.Rhs) == 1 && show(x.Rhs[0]) == "newBuffer()" && len(x.Lhs) == 1 {
-				bufVar = show(x.Lhs[0])
-				evs = append(evs, event{x.Pos(), "newBuffer"})
-			}
-		case *ast.DeferStmt:
-			s := show(x.Call)
-			switch {
-			case s == r+".outMu.Unlock()":
-				evs = append(evs, event{x.Pos(), "deferUnlock"})
-			case strings.HasPrefix(s, "freeBuffer("):
-				evs = append(evs, event{x.Pos(), "deferFree:" + s})
-			}
+		if c, ok := n.(*ast.CallExpr); ok && isWrite(c) {
 			return false
-		case *ast.CallExpr:
-			s := show(x)
-			switch {
-			case s == r+".outMu.Lock()":
-				evs = append(evs, event{x.Pos(), "lock"})
-			case s == r+".outMu.Unlock()":
-				evs = append(evs, event{x.Pos(), "unlock"})
-			case show(x.Fun) == r+".out.Write":
-				evs = append(evs, event{x.Pos(), "write:" + s})
-				return false
-			case strings.HasPrefix(s, "freeBuffer(") || strings.HasPrefix(s, "bufferPool.Put("):
-				evs = append(evs, event{x.Pos(), "free:" + s})
-			}
-		case *ast.SelectorExpr:
-			if show(x) == r+".out" {
-				otherOutUse++
-			}
+		}
+		if s, ok := n.(*ast.SelectorExpr); ok && show(s) == r+".out" {
+			otherOut++
 		}
 		return true
 	})
-	sort.Slice(evs, func(i, j int) bool { return evs[i].pos < evs[j].pos })
-	var seq []string
-	for _, e := range evs {
-		seq = append(seq, e.kind)
-	}
-	f.Notes = append(f.Notes, "Handle events: "+strings.Join(seq, " "))
-	idx := func(prefix string) []int {
-		var r []int
-		for i, k := range seq {
-			if strings.HasPrefix(k, prefix) {
-				r = append(r, i)
+	wNested := nested("out.Write", len(wr), nWrite)
+	f.SingleWrite = len(wr) == 1 && nWrite == 1 && otherOut == 0 && !wNested
+	if f.SingleWrite && bufVar != "" {
+		var call *ast.CallExpr
+		ast.Inspect(body[wr[0]], func(n ast.Node) bool {
+			if c, ok := n.(*ast.CallExpr); ok && isWrite(c) {
+				call = c
 			}
+			return true
+		})
+		if call == nil || len(call.Args) != 1 || show(call.Args[0]) != "*"+bufVar {
+			f.SingleWrite = false
+			unrecognised("%s.Handle: the argument of the single Write is not *%s", typ, bufVar)
 		}
-		return r
 	}
-	wr, lk, du, ul := idx("write:"), idx("lock"), idx("deferUnlock"), idx("unlock")
-	if len(wr) == 0 {
-		unrecognised("%s.Handle: no call of %s.out.Write", typ, r)
+	if otherOut > 0 {
+		f.Notes = append(f.Notes, fmt.Sprintf("Handle uses %s.out %d times outside the Write call", r, otherOut))
 	}
-	f.SingleWrite = len(wr) == 1 && otherOutUse == 0 && bufVar != "" && seq[wr[0]] == "write:"+r+".out.Write(*"+bufVar+")"
-	if len(wr) == 1 && otherOutUse == 0 && !f.SingleWrite {
-		unrecognised("%s.Handle: the argument of the single Write is not *%s: %s", typ, bufVar, seq[wr[0]])
-	}
-	if len(wr) >= 1 && len(lk) == 1 {
-		under := lk[0] < wr[0]
+	// the lock
+	lNested := nested("outMu.Lock", len(lock), nLock)
+	uNested := nested("outMu.Unlock", len(dunlock)+len(unlock), nUnlock)
+	switch {
+	case nLock == 0:
+		f.Notes = append(f.Notes, "Handle never locks outMu")
+	case len(lock) != 1 || lNested || uNested || len(wr) == 0:
+		f.Notes = append(f.Notes, "Handle: lock / unlock are not single top-level statements around the Write")
+	default:
 		released := false
-		for _, d := range du {
-			if d > lk[0] && d < wr[0] {
+		for _, d := range dunlock {
+			if d > lock[0] && d < wr[0] {
 				released = true
 			}
 		}
-		for _, u := range ul {
+		under := lock[0] < wr[0]
+		for _, u := range unlock {
 			if u > wr[len(wr)-1] {
 				released = true
 			}
-			if u > lk[0] && u < wr[len(wr)-1] {
+			if u > lock[0] && u < wr[len(wr)-1] {
 				under = false
 			}
 		}
 		if !released {
-			unrecognised("%s.Handle: outMu is locked but never unlocked", typ)
+			unrecognised("%s.Handle: outMu is locked but not unlocked by a top-level defer before / Unlock after the Write", typ)
 		}
 		f.WriteUnderLock = under && released
-	} else if len(lk) != 1 && len(wr) >= 1 {
-		if len(lk) == 0 {
-			f.Notes = append(f.Notes, "Handle never locks outMu")
-		} else {
-			unrecognised("%s.Handle: outMu.Lock() called %d times", typ, len(lk))
+	}
+	// Handle and everything reachable from it assigns to no handler field and to no package-level variable
+	w := scanWrites(p, r, h.decl)
+	for _, o := range w.other {
+		unrecognised("%s.Handle: cannot classify write: %s", typ, o)
+	}
+	f.HandleReadonly = len(w.recvWrites) == 0 && len(w.globalW) == 0 && helperCallsClean(p, typ, w, "Handle")
+	for _, x := range append(w.recvWrites, w.globalW...) {
+		f.Notes = append(f.Notes, "Handle writes shared state: "+x)
+	}
+	seen := map[string]bool{}
+	var visit func(fn string)
+	visit = func(fn string) {
+		if seen[fn] || p.funcs[fn] == nil {
+			return
+		}
+		seen[fn] = true
+		hw := scanWrites(p, "", p.funcs[fn])
+		if fn != "freeBuffer" && fn != "newBuffer" { // the pool discipline is judged by its own facts
+			for _, g := range hw.globalW {
+				f.HandleReadonly = false
+				f.Notes = append(f.Notes, fn+" (reachable from Handle) writes a package-level variable: "+g)
+			}
+		}
+		for _, c := range hw.funcCalls {
+			visit(c)
 		}
 	}
-	nb, df, fr := idx("newBuffer"), idx("deferFree:"), idx("free:")
-	f.BufFromPool = len(nb) == 1 && bufVar != "" && (len(wr) == 0 || nb[0] < wr[0])
-	if !f.BufFromPool {
-		unrecognised("%s.Handle: buffer is not `buf := newBuffer()`", typ)
+	for _, c := range w.funcCalls {
+		visit(c)
 	}
-	f.FreeDeferred = len(df) == 1 && len(fr) == 0 && seq[df[0]] == "deferFree:freeBuffer("+bufVar+")"
-	if !f.FreeDeferred && len(df)+len(fr) == 0 {
-		unrecognised("%s.Handle: buffer is never released", typ)
-	}
-	w := scanWrites(h)
-	f.HandleReadonly = len(w.recvWrites) == 0
-	for _, x := range w.recvWrites {
-		f.Notes = append(f.Notes, "Handle writes the receiver: "+x)
+	for _, c := range w.recvCalls {
+		if mm := p.methods[typ][c]; mm != nil {
+			hw := scanWrites(p, mm.recv, mm.decl)
+			for _, g := range hw.globalW {
+				f.HandleReadonly = false
+				f.Notes = append(f.Notes, c+" (called by Handle) writes a package-level variable: "+g)
+			}
+			for _, cc := range hw.funcCalls {
+				visit(cc)
+			}
+		}
 	}
 	return f
 }
@@ -603,7 +948,6 @@ func globalsOf(p *pkg) globalFacts {
 					big := c == "cap(*"+b+")>maxBufferSize" || c == "maxBufferSize<cap(*"+b+")"
 					walk(x.Body.List, guarded || small)
 					if big {
-						// `if cap > max { return }` guards what follows
 						if len(x.Body.List) == 1 {
 							if _, ok := x.Body.List[0].(*ast.ReturnStmt); ok {
 								guarded = true
@@ -632,7 +976,6 @@ func globalsOf(p *pkg) globalFacts {
 			}
 		}
 	}
-	// bufferPool.New returns an empty buffer
 	if bp, ok := p.vars["bufferPool"]; !ok {
 		unrecognised("var bufferPool not found")
 	} else {
@@ -648,7 +991,13 @@ func globalsOf(p *pkg) globalFacts {
 			unrecognised("bufferPool.New does not make([]byte, 0, n)")
 		}
 	}
-	if nb := p.funcs["newBuffer"]; nb == nil || len(nb.Body.List) != 1 || !strings.HasPrefix(show(nb.Body.List[0].(*ast.ReturnStmt).Results[0]), "bufferPool.Get()") {
+	okNew := false
+	if nb := p.funcs["newBuffer"]; nb != nil && len(nb.Body.List) == 1 {
+		if r, ok := nb.Body.List[0].(*ast.ReturnStmt); ok && len(r.Results) == 1 && strings.HasPrefix(show(r.Results[0]), "bufferPool.Get()") {
+			okNew = true
+		}
+	}
+	if !okNew {
 		unrecognised("newBuffer is not `return bufferPool.Get().(*[]byte)`")
 	}
 	// NewOptions stores the level argument unchanged; Options.Enabled is `l >= opts.level`
@@ -670,15 +1019,14 @@ func globalsOf(p *pkg) globalFacts {
 			unrecognised("NewOptions is not a single `return &Options{…}`")
 		} else {
 			var stored ast.Expr
-			if kv, ok := lit.Elts[0].(*ast.KeyValueExpr); ok {
+			if _, keyed := lit.Elts[0].(*ast.KeyValueExpr); keyed {
 				for _, el := range lit.Elts {
-					if kv2, ok := el.(*ast.KeyValueExpr); ok && show(kv2.Key) == "level" {
-						stored = kv2.Value
+					if kv, ok := el.(*ast.KeyValueExpr); ok && show(kv.Key) == "level" {
+						stored = kv.Value
 					}
 				}
-				_ = kv
-			} else {
-				stored = lit.Elts[0] // positional: level is the first field of Options
+			} else if fs := p.structs["Options"]; len(fs) > 0 && fs[0].name == "level" {
+				stored = lit.Elts[0]
 			}
 			if stored == nil {
 				unrecognised("NewOptions does not set Options.level")
@@ -734,7 +1082,6 @@ func globalsOf(p *pkg) globalFacts {
 			}
 		}
 		if !first {
-			// is the gate anywhere? then it is recognised-but-late; otherwise unrecognised
 			seen := false
 			handleCalled := false
 			ast.Inspect(m.decl.Body, func(n ast.Node) bool {
@@ -767,21 +1114,23 @@ func cb(b bool) string {
 	return "false"
 }
 
-func main() {
-	if len(os.Args) != 3 || (os.Args[2] != "chain" && os.Args[2] != "conc") {
-		fmt.Fprintln(os.Stderr, "usage: loggerfacts <repo> chain|conc")
-		os.Exit(2)
+// analyse returns the Coq text, the notes and the list of unrecognised shapes.
+func analyse(repo, mode string) (string, []string, []string) {
+	unrec = nil
+	p := load(filepath.Join(repo, "logger"))
+	if p == nil {
+		return "", nil, unrec
 	}
-	p := load(filepath.Join(os.Args[1], "logger"))
-	types := []struct{ typ, name string }{{"JsonHandler", "json"}, {"TextHandler", "text"}, {"NanoHandler", "nano"}}
 	var out strings.Builder
 	var notes []string
-	if os.Args[2] == "chain" {
+	if mode == "chain" {
+		wraps, wnotes := loggerWraps(p)
+		notes = append(notes, wnotes...)
 		out.WriteString("From Glb Require Import Model.LoggerChain.\n")
-		for _, t := range types {
+		for _, t := range handlerTypes {
 			f := chainOf(p, t.typ)
-			fmt.Fprintf(&out, "Definition %s_chain_facts : chain_facts := mkChainFacts %s %s %s %s.\n", t.name,
-				cb(f.CloneClips), cb(f.WithAttrsFresh), cb(f.WithGroupFresh), cb(f.GroupReturnsReceiver))
+			fmt.Fprintf(&out, "Definition %s_chain_facts : chain_facts := mkChainFacts %s %s %s %s %s.\n", t.name,
+				cb(f.CloneClips), cb(f.WithAttrsFresh), cb(f.WithGroupFresh), cb(f.GroupReturnsReceiver), cb(wraps))
 			for _, n := range f.Notes {
 				notes = append(notes, t.typ+": "+n)
 			}
@@ -789,11 +1138,11 @@ func main() {
 	} else {
 		g := globalsOf(p)
 		out.WriteString("From Glb Require Import Model.LoggerConc.\n")
-		for _, t := range types {
+		for _, t := range handlerTypes {
 			f := concOf(p, t.typ)
-			fmt.Fprintf(&out, "Definition %s_conc_facts : conc_facts := mkConcFacts %s %s %s %s %s %s %s %s %s %s %s %s.\n", t.name,
+			fmt.Fprintf(&out, "Definition %s_conc_facts : conc_facts := mkConcFacts %s %s %s %s %s %s %s %s %s %s %s %s %s.\n", t.name,
 				cb(f.SingleWrite), cb(f.WriteUnderLock), cb(f.CloneSharesMu), cb(f.BufFromPool), cb(f.FreeDeferred), cb(f.HandleReadonly),
-				cb(g.ResetBeforePut), cb(g.RefusesOversized), cb(g.PoolNewEmpty), cb(g.GateFirst), cb(g.LevelStored), cb(g.EnabledIsGe))
+				cb(g.ResetBeforePut), cb(g.RefusesOversized), cb(g.PoolNewEmpty), cb(g.GateFirst), cb(g.LevelStored), cb(g.EnabledIsGe), cb(f.MuOutImmutable))
 			for _, n := range f.Notes {
 				notes = append(notes, t.typ+": "+n)
 			}
@@ -801,8 +1150,17 @@ func main() {
 		notes = append(notes, "maxBufferSize = "+g.MaxBufferSize)
 		notes = append(notes, g.Notes...)
 	}
-	if len(unrec) > 0 {
-		for _, u := range unrec {
+	return out.String(), notes, unrec
+}
+
+func main() {
+	if len(os.Args) != 3 || (os.Args[2] != "chain" && os.Args[2] != "conc") {
+		fmt.Fprintln(os.Stderr, "usage: loggerfacts <repo> chain|conc")
+		os.Exit(2)
+	}
+	out, notes, un := analyse(os.Args[1], os.Args[2])
+	if len(un) > 0 {
+		for _, u := range un {
 			fmt.Fprintln(os.Stderr, "UNRECOGNISED:", u)
 		}
 		os.Exit(3)
@@ -810,5 +1168,5 @@ func main() {
 	for _, n := range notes {
 		fmt.Printf("(* %s *)\n", strings.ReplaceAll(strings.ReplaceAll(n, "*)", "* )"), "(*", "( *"))
 	}
-	fmt.Print(out.String())
+	fmt.Print(out)
 }
